@@ -1,2 +1,51 @@
-(* Properties_C10.v — placeholder until LifeProofs.v lands *)
-From QH Require Import Lifecycle Spec_C10.
+(* Properties_C10.v — C10: connections never outlive their peer and ending one never crashes
+   (on the lifecycle model of Lifecycle.v; partial: see DESIGN.md for what the model cannot exhibit). *)
+From Coq Require Import String List Ascii ZArith.
+From QH Require Import Bytes Value Lifecycle Spec_C10 LifeProofs.
+Import ListNotations.
+
+(* every schedule of feeds, flushes, peer resets, application closes, event-loop turns, new connections and the
+   destruction of the server, over any number of connections and any handler kind, runs to its end: no operation
+   touches an object that has been deleted, and the ownership invariant holds in the resulting world *)
+Theorem C10_no_use_after_delete : forall g ops,
+  guard g = true -> exists w, run_world g world0 ops = Some w /\ Inv w [].
+Proof. exact schedule_never_touches_deleted. Qed.
+Print Assumptions C10_no_use_after_delete.
+
+Theorem C10_no_crash_observed : forall g ops, guard g = true -> ~ In CRASHED (run_lops g world0 ops).
+Proof. exact no_crash_observed. Qed.
+Print Assumptions C10_no_crash_observed.
+
+Theorem C10_runner_no_crash : forall c l, run_lifed c = VL l -> ~ In CRASHED l.
+Proof. exact run_lifed_no_crash. Qed.
+Print Assumptions C10_runner_no_crash.
+
+(* once both sides of connection j are closed (the transport reported the disconnect, or the server object is gone),
+   then after any further operations, one event-loop turn releases the HTTP socket with its TCP socket, the copier
+   and the file, and they stay released under every continuation *)
+Theorem C10_released_after_close : forall g, guard g = true -> forall ops1 w j c,
+  run_world g world0 ops1 = Some w -> nth_error (conns w) j = Some c -> closed w c ->
+  forall ops2 ops3, exists w' c',
+    run_world g w (ops2 ++ LTurn :: ops3) = Some w' /\ nth_error (conns w') j = Some c' /\ released c'.
+Proof. exact released_after_close. Qed.
+Print Assumptions C10_released_after_close.
+
+(* after any number of connections: when all of them are closed, one turn brings the live-object counts to idle *)
+Theorem C10_idle_after_all_closed : forall g, guard g = true -> forall ops1 w,
+  run_world g world0 ops1 = Some w -> (forall j c, nth_error (conns w) j = Some c -> closed w c) ->
+  exists w', run_world g w [LTurn] = Some w' /\ live_copiers w' = 0%Z /\
+             (forall j c', nth_error (conns w') j = Some c' -> h c' = false).
+Proof. exact idle_after_all_closed. Qed.
+Print Assumptions C10_idle_after_all_closed.
+
+(* the hypotheses are met by a transfer interrupted by a peer reset *)
+Theorem C10_premises_satisfiable :
+  exists w c, run_world g_demo world0 ops_demo = Some w /\ nth_error (conns w) 0 = Some c /\
+              disc c = true /\ h c = true /\ cp c = CStop /\ payload c = 65536%Z.
+Proof. exact demo_closed_not_released. Qed.
+Print Assumptions C10_premises_satisfiable.
+
+(* legacy: without the existence check in FilesystemHandler's copier-finished lambda the model touches a deleted socket *)
+Theorem C10_unguarded_refuted : exists ops, In CRASHED (run_lops (mkCfg 1 200000 25 25 25 false) world0 ops).
+Proof. exact unguarded_refuted. Qed.
+Print Assumptions C10_unguarded_refuted.
